@@ -23,3 +23,8 @@ func VerifC01RootParentDS(r *Resolver, parentDS []dns.RR, zone string) ([]dns.RR
 
 // VerifC01InsecureProofName exposes insecureProofName (accessor only).
 func VerifC01InsecureProofName(q dns.Question) string { return insecureProofName(q) }
+
+// VerifC01FilterAuthorityRecords exposes Resolver.filterAuthorityRecords (accessor only).
+func VerifC01FilterAuthorityRecords(rrs []dns.RR) []dns.RR {
+	return (&Resolver{}).filterAuthorityRecords(rrs)
+}
